@@ -19,6 +19,8 @@ derivative(): when neither a key is a differentiation variable nor an image depe
 substitute' and 'substitute then differentiate' coincide and S(CoefficientDerivative node) under subst is the
 expectation; otherwise the documented reading (replace acts on the evaluated derivative) is asserted by
 comparing with S(expand_derivatives(dF)) under subst.
+Deterministic part (once): every scalar operator applied to a coefficient, the coefficient replaced by int / float /
+zero / complex literals (the re-constructed operators fold constants); replay index -1.
 """
 
 import math
@@ -55,6 +57,7 @@ LEVEL_NOTE = (
     "affine simplex cells, single mesh, no base form operators / coarguments"
 )
 RULE = (
+    "deterministic part: 41 scalar operators x 6 real (+3 complex) literal images in a real and a complex world; "
     "case i = (family: expr | form | derivative | nonterminal-key | shape-changing | no-key, expression recipe from the seeded generator "
     "with the keys as extra leaves, mapping style and image kinds, cell, integral type, real/complex); distinct = (family, mapping style, "
     "image kinds, skeleton depth 2 of the input, cell, integral type); non-trivial = at least one mapped key occurs in the input and the "
@@ -1081,6 +1084,14 @@ def family_deriv(ctx, i, rng):
             cdv = U.coef(rng.choice(U.spaces_with_shape(gk.shape + ukey.shape)), 6) if U.spaces_with_shape(gk.shape + ukey.shape) else None
             if cdv is not None:
                 cd = {gk.obj: cdv}
+        const_under_grad = None
+        if cd is None and rng.random() < 0.15:
+            # a cellwise constant key (Constant / DG0 coefficient) under a spatial derivative, to be mapped to a varying image
+            ck = Key(U.const((), rng.randrange(2)), "const", ()) if rng.random() < 0.6 else Key(U.coef("DG0", rng.randrange(2)), "coef", "DG0")
+            uu = u if not u.ufl_shape else u[rng.randrange(u.ufl_shape[0])]
+            rs = (lambda x: x(rng.choice("+-"))) if U.interior else (lambda x: x)
+            F = F + rs(ufl.grad(ck.obj * uu)[rng.randrange(g)]) * rs(ck.obj)
+            const_under_grad = ck
         as_form = rng.random() < 0.4
         target = F * U.measure(rng.choice([None, 1])) if as_form else F
         dF = ufl.derivative(target, u, du, cd) if cd else ufl.derivative(target, u, du)
@@ -1090,6 +1101,8 @@ def family_deriv(ctx, i, rng):
             dF = ufl.derivative(dF, u, du2)
         # mapping
         mode = rng.choice(["other", "other", "direction", "variable", "image-has-u", "mixed", "absent"])
+        if const_under_grad is not None:
+            mode = "cellwise-constant-key"
         diffvars = [u] + (list(cd) if cd else [])
     except Exception as ex:
         ctx.count("build_rejected")
@@ -1103,7 +1116,12 @@ def family_deriv(ctx, i, rng):
         return
     try:
         two_sided = integrands_of(expanded) if U.interior else []
-        if mode == "absent" or (mode == "other" and not others):
+        if mode == "cellwise-constant-key":
+            ck = const_under_grad
+            a, b = U.coef("P2", 2), U.coef("P1", 3)
+            img = rng.choice([a, a * ck.obj + b, ufl.sin(a) + 2, 2 * b - a * a])
+            mapping, subst, style, kinds = {ck.obj: img}, {ck.obj: ("expr", img)}, "single", ("varying",)
+        elif mode == "absent" or (mode == "other" and not others):
             mode = "absent"
             q = new_key(rng, U)
             fresh = {"coef": lambda: U.coef(q.name, 7), "arg": lambda: U.arg(q.name, 5), "const": lambda: U.const(q.shape, 7)}[q.kind]()
@@ -1194,10 +1212,25 @@ def family_deriv(ctx, i, rng):
             # is it replace or expand_derivatives that disagrees with the definition?
             v2 = oracle.decide(cmp(ins_expanded))
             if v2 == "held":
-                ctx.count("deriv_expand_derivatives_suspect")
-                ctx.notes.append(f"native S and expand_derivatives disagree (not judged here): case {i}, input {safe_str(dF, 300)}")
-                ctx.covered("expand_derivatives_suspect", skeleton(ins_native[0], 2))
-                ctx.count("case_skipped")
+                # replace did substitute correctly in the expanded derivative.  Is the expansion right for the input as it stands?
+                v3 = oracle.decide([oracle.compare_once(lambda w, B: total(ins_native, w, B, {}), lambda w, B: total(ins_expanded, w, B, {}), w) for w in worlds])
+                if v3 != "held":
+                    ctx.count("deriv_expand_derivatives_suspect")
+                    ctx.notes.append(f"native S and expand_derivatives disagree (not judged here): case {i}, input {safe_str(dF, 300)}")
+                    ctx.covered("expand_derivatives_suspect", skeleton(ins_native[0], 2))
+                    ctx.count("case_skipped")
+                    return
+                # the expansion is right for the input but not invariant under the substitution: it used a property of a key
+                # (e.g. grad(Constant) = 0) that the image does not have
+                bad = next(x for x in vs if x.kind in ("disagree", "output-ambiguous"))
+                kcls = "+".join(sorted({type(k).__name__ for k in mapping if occurs(dF, k)}))
+                ctx.count("case_violated")
+                ctx.violation(f"C21/derivative-expanded-before-substitution/{kcls}-key",
+                              "replace on a derivative() result expands ALL derivatives before substituting: the result equals the expanded derivative "
+                              "with the keys replaced, but not the derivative's value with the keys' fields overridden (a spatial derivative of a key was "
+                              f"simplified with a property the image does not have); {bad.kind}, rel. err {bad.err}, {bad.why}",
+                              {"input": safe_str(dF, 1500), "expanded": safe_str(expanded, 1200), "output": safe_str(out, 1500), "mapping": describe_mapping(mapping),
+                               "mode": mode, "entry": fname})
                 return
     ctx.count("case_" + v)
     if v == "violated":
@@ -1406,13 +1439,20 @@ def literal_sweep(ctx):
 
 def once(ctx):
     if ctx.sub == 0:
-        literal_sweep(ctx)
+        # violations of the deterministic part carry case index -1, which replays exactly this part
+        ctx.case_index = -1
+        try:
+            literal_sweep(ctx)
+        finally:
+            ctx.case_index = None
 
 
 DISPATCH = {"expr": family_expr, "form": family_form, "shape": family_shape, "identity": family_identity, "deriv": family_deriv, "nonterminal": family_nonterminal}
 
 
 def case(ctx, i, rng):
+    if i < 0:
+        return literal_sweep(ctx)
     fam = rng.choice(FAMILIES)
     ctx.count("family_" + fam)
     DISPATCH[fam](ctx, i, rng)
